@@ -41,6 +41,7 @@ CallR(op, x, r) == [k |-> "call", op |-> op, t |-> <<"fx">>, a |-> <<Enc(x)>>, r
 CallVia(op, t, a, via, ot) == [Call(op, t, a) EXCEPT !.via = via, !.ot = ot]
 Rand(op, t, n, sd) == [k |-> "rand", op |-> op, t |-> t, n |-> n, seed |-> sd, asg |-> 0, via |-> "", ot |-> "fx"]
 RandR(op, t, n, sd) == [k |-> "rand", op |-> op, t |-> t, n |-> n, seed |-> sd, r |-> 0, asg |-> 0, via |-> "", ot |-> "fx"]
+RandM(op, t, n, sd, mode) == [k |-> "rand", op |-> op, t |-> t, n |-> n, seed |-> sd, mode |-> mode, asg |-> 0, via |-> "", ot |-> "fx"]
 RandB(op, t, n, sd, mb) == [k |-> "rand", op |-> op, t |-> t, n |-> n, seed |-> sd, maxbits |-> mb, asg |-> 0, via |-> "", ot |-> "fx"]
 Sweep(op, tag, lo, hi, step) == [k |-> "sweep", op |-> op, tag |-> tag, t |-> <<tag>>, lo |-> Enc(lo), hi |-> Enc(hi), step |-> Enc(ZN(step)), asg |-> 0, via |-> "", ot |-> "fx"]
 SweepZ(op, tag, lo, hi, stepz) == [Sweep(op, tag, lo, hi, 1) EXCEPT !.step = Enc(stepz)]
@@ -91,7 +92,7 @@ Jobs_C02 ==
          S2Q({Call("mul", <<"fx", IntTagsG[i]>>, <<a, n>>) : a \in FxForScalar, n \in IntLm(IntTagsG[i])})
          \o S2Q({Call("mul", <<IntTagsG[i], "fx">>, <<n, a>>) : a \in FxForScalar, n \in IntLm(IntTagsG[i])})
          \o <<Rand("mul", <<"fx", IntTagsG[i]>>, NR(1500, 40000), Seed + 10 + i), Rand("mul", <<IntTagsG[i], "fx">>, NR(1500, 40000), Seed + 20 + i)>>])
-   \o <<Rand("mul", <<"fx", "fx">>, NR(10000, 300000), Seed + 4), RandB("mul", <<"fx", "fx">>, NR(10000, 300000), Seed + 5, 34),
+   \o <<RandM("mul", <<"fx", "fx">>, NR(6000, 300000), Seed + 3, "prodedge"), Rand("mul", <<"fx", "fx">>, NR(6000, 300000), Seed + 4), RandB("mul", <<"fx", "fx">>, NR(10000, 300000), Seed + 5, 34),
         RandB("mul", <<"fx", "fx">>, NR(5000, 100000), Seed + 6, 48)>>
 
 (* ---- C03: quotients ------------------------------------------------------------------------------ *)
